@@ -72,6 +72,7 @@ impl Tag for ImageLoadPhysAddrTag {
 impl<'a> BootInformation<'a> {
 //@extract multiboot2/src/boot_information.rs :: impl<'a> BootInformation<'a> :: fn basic_memory_info_tag
 //@  ret r
+//@  optional
 //@  spec:
 //@    requires self.wf(), panics_allowed(),
 //@    ensures mb_getter_post::<BasicMemoryInfoTag>(self, 4, r),   // specification: type = 4
@@ -79,6 +80,7 @@ impl<'a> BootInformation<'a> {
 
 //@extract multiboot2/src/boot_information.rs :: impl<'a> BootInformation<'a> :: fn bootdev_tag
 //@  ret r
+//@  optional
 //@  spec:
 //@    requires self.wf(), panics_allowed(),
 //@    ensures mb_getter_post::<BootdevTag>(self, 5, r),   // specification: type = 5
@@ -86,6 +88,7 @@ impl<'a> BootInformation<'a> {
 
 //@extract multiboot2/src/boot_information.rs :: impl<'a> BootInformation<'a> :: fn vbe_info_tag
 //@  ret r
+//@  optional
 //@  spec:
 //@    requires self.wf(), panics_allowed(),
 //@    ensures mb_getter_post::<VBEInfoTag>(self, 7, r),   // specification: type = 7
@@ -93,6 +96,7 @@ impl<'a> BootInformation<'a> {
 
 //@extract multiboot2/src/boot_information.rs :: impl<'a> BootInformation<'a> :: fn apm_tag
 //@  ret r
+//@  optional
 //@  spec:
 //@    requires self.wf(), panics_allowed(),
 //@    ensures mb_getter_post::<ApmTag>(self, 10, r),   // specification: type = 10
@@ -100,6 +104,7 @@ impl<'a> BootInformation<'a> {
 
 //@extract multiboot2/src/boot_information.rs :: impl<'a> BootInformation<'a> :: fn efi_sdt32_tag
 //@  ret r
+//@  optional
 //@  spec:
 //@    requires self.wf(), panics_allowed(),
 //@    ensures mb_getter_post::<EFISdt32Tag>(self, 11, r),   // specification: type = 11
@@ -107,6 +112,7 @@ impl<'a> BootInformation<'a> {
 
 //@extract multiboot2/src/boot_information.rs :: impl<'a> BootInformation<'a> :: fn efi_sdt64_tag
 //@  ret r
+//@  optional
 //@  spec:
 //@    requires self.wf(), panics_allowed(),
 //@    ensures mb_getter_post::<EFISdt64Tag>(self, 12, r),   // specification: type = 12
@@ -114,6 +120,7 @@ impl<'a> BootInformation<'a> {
 
 //@extract multiboot2/src/boot_information.rs :: impl<'a> BootInformation<'a> :: fn rsdp_v1_tag
 //@  ret r
+//@  optional
 //@  spec:
 //@    requires self.wf(), panics_allowed(),
 //@    ensures mb_getter_post::<RsdpV1Tag>(self, 14, r),   // specification: type = 14
@@ -121,6 +128,7 @@ impl<'a> BootInformation<'a> {
 
 //@extract multiboot2/src/boot_information.rs :: impl<'a> BootInformation<'a> :: fn rsdp_v2_tag
 //@  ret r
+//@  optional
 //@  spec:
 //@    requires self.wf(), panics_allowed(),
 //@    ensures mb_getter_post::<RsdpV2Tag>(self, 15, r),   // specification: type = 15
@@ -128,6 +136,7 @@ impl<'a> BootInformation<'a> {
 
 //@extract multiboot2/src/boot_information.rs :: impl<'a> BootInformation<'a> :: fn efi_ih32_tag
 //@  ret r
+//@  optional
 //@  spec:
 //@    requires self.wf(), panics_allowed(),
 //@    ensures mb_getter_post::<EFIImageHandle32Tag>(self, 19, r),   // specification: type = 19
@@ -135,6 +144,7 @@ impl<'a> BootInformation<'a> {
 
 //@extract multiboot2/src/boot_information.rs :: impl<'a> BootInformation<'a> :: fn efi_ih64_tag
 //@  ret r
+//@  optional
 //@  spec:
 //@    requires self.wf(), panics_allowed(),
 //@    ensures mb_getter_post::<EFIImageHandle64Tag>(self, 20, r),   // specification: type = 20
@@ -142,6 +152,7 @@ impl<'a> BootInformation<'a> {
 
 //@extract multiboot2/src/boot_information.rs :: impl<'a> BootInformation<'a> :: fn load_base_addr_tag
 //@  ret r
+//@  optional
 //@  spec:
 //@    requires self.wf(), panics_allowed(),
 //@    ensures mb_getter_post::<ImageLoadPhysAddrTag>(self, 21, r),   // specification: type = 21
